@@ -63,6 +63,19 @@ def cases(tier, seed):
                 for k in ('pass', 'fail', 'skip_dec', 'sub:1,0,1'):
                     for rep in (1, 2):
                         yield [n, g, kind, hm, side, [k, 'pass'], rep, '']
+    # -x: the test that stops the run still gets its testTearDown
+    for n, g, kind in _graphs(2):
+        for hm in range(1, 1 << n):
+            for k in kinds:
+                for rep in (1, 2):
+                    yield [n, g, kind, hm, 'both', [k, 'pass'], rep, 'x']
+    # per-test hooks that a layer installs in its own setUp (late hooks): on
+    # the hook-bearing layers the hooks only exist once the layer is set up
+    for n, g, kind in _graphs(3):
+        for hm in range(1, 1 << n):
+            for k in ('pass', 'fail'):
+                yield [n, g, kind, hm, 'late', [k, 'pass'], 1, '']
+                yield [n, g, kind, hm, 'lateD', [k, 'pass'], 2, '']
     # hook ORDER over larger graphs: every DAG with ordered bases on 4 (thorough:
     # 5) layers under every naming of the nodes (the runner orders layers by
     # name), all layers hook-bearing, one passing test per layer
@@ -91,6 +104,7 @@ def build_spec(case):
     n, g, kind, hm, side, seq, rep, mode = case[:8]
     names = worlds.names_for(n, case[8] if len(case) > 8 else 'fwd')
     hooks = []
+    late = {}
     for i in range(n):
         h = list(worlds.HOOKS_SD)
         if (hm >> i) & 1:
@@ -98,8 +112,18 @@ def build_spec(case):
                 h.append('testSetUp')
             if side in ('both', 'D'):
                 h.append('testTearDown')
+            if side == 'late':
+                late[i] = ['testSetUp', 'testTearDown']
+            elif side == 'lateD':
+                h.append('testSetUp')
+                late[i] = ['testTearDown']
         hooks.append(h)
     layers = worlds.layer_specs(g, kind, names, hooks)
+    for i, lh in late.items():
+        layers[i]['lh'] = lh
+        # the monitor expects these hooks on this layer
+        layers[i]['h'] = layers[i]['h'] + [x for x in lh if x not in layers[i]['h']]
+        layers[i]['hdecl'] = [x for x in layers[i]['h'] if x not in lh]
     tests = []
     for i in range(n - 1):
         tests.append({'n': 'o' + names[i], 'l': names[i], 's': 'pass'})
@@ -110,6 +134,8 @@ def build_spec(case):
         argv += ['--repeat', str(rep)]
     if mode == 'j2':
         argv += ['-j2']
+    if mode == 'x':
+        argv += ['-x']
     return {'layers': layers, 'tests': tests}, argv
 
 
